@@ -297,6 +297,12 @@ C_TEMPLATES = [
     '\tcharset\t{c},255,0\n\tbyt\t"a"\n',
     '\tcharset\t255,{c}\n',
     'x\tequ\tlab[parent{c}]\n',
+    # body lines whose TABs / control characters are rewritten when the body is stored
+    'm\tmacro\n\tbyt\t1' + '\t' * 300 + ',{c}\n\tendm\n\tm\n',
+    '\tirp\tq,1,2\n\tbyt\tq' + '\t' * 300 + ',{c}\n\tendm\n',
+    '\tirpc\tq,"ab"\n' + '\t' * 40 + 'byt' + '\t' * 40 + '"q"' + '\t' * 200 + '\n\tendm\n',
+    '\trept\t2\n\tbyt\t1' + '\t' * 300 + ',{c}\n\tendm\n',
+    'm\tmacro\n\tbyt\t1' + '\x01' * 300 + ',{c}\n\tendm\n\tm\n',
     '\tsection\ts1\nx\tequ\tlab[parent2]\n\tpublic\tlab:parent3\n\tendsection\n',
 ]
 LONG_TOKEN = 'Ab' * 650
